@@ -59,7 +59,8 @@ def write_replay(prop, failure):
     os.makedirs(REPLAY_DIR, exist_ok=True)
     blob = json.dumps(failure, sort_keys=True, default=str)
     h = hashlib.sha256(blob.encode()).hexdigest()[:10]
-    clause = str(failure.get("clause", "x")).replace("/", "_")
+    import re
+    clause = re.sub(r"[^A-Za-z0-9_.#-]+", "_", str(failure.get("clause", "x")))[:80]
     path = os.path.join(REPLAY_DIR, f"{prop}-{clause}-{h}.json")
     with open(path, "w") as f:
         json.dump(failure, f, indent=1, sort_keys=True, default=str)
